@@ -489,7 +489,7 @@ func (p *CodeBuilder) Index(nidx int, lhs int, src ...ast.Node) *CodeBuilder {
 	elem := &internal.Elem{
 		Val: &ast.IndexExpr{X: argVal, Index: args[1].Val}, Type: tyRet, Src: srcExpr,
 	}
-	// TODO(xsw): check index type
+	p.checkIndexType(args[1], typs[0], ivKind)
 	p.stk.Ret(2, elem)
 	return p
 }
